@@ -1,11 +1,97 @@
 """Bounded program families (generated from explicit grammars; exhaustive up to the stated depth,
-seeded-random beyond).  Every family avoids using one operand letter with two widths."""
+seeded-random beyond).  No family uses one operand letter with two register widths."""
 import itertools
 import random
 from .framework import seed
 
 TYPES = [("uint8_t", 8, False), ("int8_t", 8, True), ("uint16_t", 16, False), ("int16_t", 16, True),
          ("uint32_t", 32, False), ("int32_t", 32, True), ("uint64_t", 64, False), ("int64_t", 64, True)]
+TNAME = [t[0] for t in TYPES]
+BINOPS = ["+", "-", "*", "&", "|", "^", "<<", ">>", "<", ">", "<=", ">=", "==", "!=", "&&", "||"]
+ARITH = ["+", "-", "*", "&", "|", "^"]
+SHIFT = ["<<", ">>"]
+CMP = ["<", ">", "<=", ">=", "==", "!="]
+LOGIC = ["&&", "||"]
+UNOPS = ["~", "-", "!"]
+
+
+def src(w, letter):
+    """Source operand of the right width: letter s,t,u,v (pairs for 64 bit)."""
+    return f"R{letter}{letter}V" if w == 64 else f"R{letter}V"
+
+
+def decl(tname, w, var, letter):
+    return f"{tname} {var} = {src(w, letter)};"
+
+
+def c02_depth1():
+    out = []
+    for (t1, w1, _), (t2, w2, _), op in itertools.product(TYPES, TYPES, BINOPS):
+        out.append(f"{{ {decl(t1, w1, 'a', 's')} {decl(t2, w2, 'b', 't')} RddV = a {op} b; }}")
+    for (t1, w1, _), op in itertools.product(TYPES, UNOPS):
+        out.append(f"{{ {decl(t1, w1, 'a', 's')} RddV = {op}a; }}")
+    # ?: over arm types x condition kinds
+    for (t1, w1, _), (t2, w2, _) in itertools.product(TYPES, TYPES):
+        out.append(f"{{ {decl(t1, w1, 'a', 's')} {decl(t2, w2, 'b', 't')} RddV = (RuV > 0) ? a : b; }}")
+        out.append(f"{{ {decl(t1, w1, 'a', 's')} {decl(t2, w2, 'b', 't')} RddV = RuV ? a : b; }}")
+    for (t1, w1, _) in TYPES:
+        out.append(f"{{ {decl(t1, w1, 'a', 's')} RddV = a ? RtV : RuV; }}")
+    return out
+
+
+def c02_depth2(tier, rng):
+    """(a OP1 b) OP2 c and a OP1 (b OP2 c): all operator pairs over a covering set of type triples."""
+    out = []
+    ops = ARITH + SHIFT + CMP
+    base = ["uint8_t", "int16_t", "uint32_t", "int64_t"]
+    triples = list(itertools.product(base, repeat=3)) if tier == "thorough" else None
+    for op1, op2 in itertools.product(ops, ops):
+        if triples is None:
+            ts = [tuple(rng.choice(TNAME) for _ in range(3)) for _ in range(2)]
+        else:
+            ts = triples
+        for (t1, t2, t3) in ts:
+            w = {n: ww for n, ww, _ in TYPES}
+            d = f"{decl(t1, w[t1], 'a', 's')} {decl(t2, w[t2], 'b', 't')} {decl(t3, w[t3], 'c', 'u')}"
+            out.append(f"{{ {d} RddV = (a {op1} b) {op2} c; }}")
+            out.append(f"{{ {d} RddV = a {op1} (b {op2} c); }}")
+    return out
+
+
+def rand_expr(rng, depth, vars_, ops, unops=("~", "-"), consts=("3", "0x10", "1", "7")):
+    """Random tree whose leaves are variables; a constant only appears as the right operand of an
+    operator whose left operand is not constant (constant-only subtrees are C09's subject)."""
+    if depth == 0 or rng.random() < 0.2:
+        return rng.choice(vars_)
+    r = rng.random()
+    if r < 0.15 and unops:
+        return f"({rng.choice(unops)}{rand_expr(rng, depth - 1, vars_, ops, unops, consts)})"
+    if r < 0.25:
+        t = rng.choice(TNAME)
+        return f"(({t}){rand_expr(rng, depth - 1, vars_, ops, unops, consts)})"
+    op = rng.choice(ops)
+    left = rand_expr(rng, depth - 1, vars_, ops, unops, consts)
+    if consts and rng.random() < 0.25:
+        return f"({left} {op} {rng.choice(consts)})"
+    return f"({left} {op} {rand_expr(rng, depth - 1, vars_, ops, unops, consts)})"
+
+
+def c02_random(tier, rng):
+    """Depth 3-4 trees over + - * & | ^ << >> and comparisons (results of ! && || and ?: with mixed narrow
+    arms are covered exhaustively at depth 1 and listed as findings, so they are not mixed in here)."""
+    out = []
+    n = 400 if tier == "thorough" else 80
+    for _ in range(n):
+        ts = [rng.choice(TYPES) for _ in range(3)]
+        d = " ".join(decl(t[0], t[1], v, l) for t, v, l in zip(ts, "abc", "stu"))
+        e = rand_expr(rng, rng.choice([3, 4]), ["a", "b", "c"], ARITH + SHIFT + CMP)
+        out.append(f"{{ {d} RddV = {e}; }}")
+    return out
+
+
+def c02(tier):
+    rng = random.Random(seed() * 7919 + 2)
+    return c02_depth1() + c02_depth2(tier, rng) + c02_random(tier, rng)
 
 
 def wf_family(prop, tier):
